@@ -164,6 +164,17 @@ func (x *Exec) gridBuild(t gridTarget, vs []entView, mk func(string) GenOp, fill
 		if mode != "val" {
 			o.Vals = FlexMap[int64]{}
 		}
+		if x.rng.Intn(2) == 0 {
+			// scripted: a single creation with the same components and the same targets first, so that the batch
+			// lands in a table that already holds rows (the start row of the batch is not 0)
+			pre := mk("New")
+			fill(&pre, T, len(x.ords)+1)
+			for c, t := range o.Tg {
+				pre.Tg[c] = t
+			}
+			x.gqueue = append(x.gqueue, o)
+			return pre, true
+		}
 		return o, true
 	case "Add":
 		if len(lacking) == 0 {
